@@ -5,7 +5,8 @@
    Only statements, [exact], Examples and [Print Assumptions] live here. *)
 From Coq Require Import List Arith Bool Permutation.
 Require Import TT.Model.Base TT.Model.Topo TT.Model.C13Order TT.Spec.C13Rel.
-Require Import TT.Proofs.C13SortInv TT.Proofs.C13Proofs TT.Proofs.C13Extra.
+Require Import TT.Model.Str TT.Spec.C13Spec.
+Require Import TT.Proofs.C13SortInv TT.Proofs.C13Proofs TT.Proofs.C13Extra TT.Proofs.C13Trans TT.Proofs.C13Oracle.
 Import ListNotations.
 
 (* Whatever the hash orders, the generated declarations are the same lists (was refuted before the
@@ -15,6 +16,14 @@ Proof. exact order_independent. Qed.
 Theorem C13_viz_independent : forall p w w', viz w p = viz w' p.
 Proof. exact viz_independent. Qed.
 
+(* --verbose and --visualize-deps: the bindings are the same for all flags, the two graph files are
+   written exactly with --visualize-deps, and the whole outcome is independent of the hash orders. *)
+Theorem C13_flags : forall p zod fl fl' w w',
+  option_map fst (run_files fl zod w p) = option_map fst (run_files fl' zod w' p) /\
+  (forall o v, run_files fl zod w p = Some (o, v) -> (v <> None <-> f_visualize fl = true)) /\
+  run_files fl zod w p = run_files fl zod w' p.
+Proof. exact flags_thm. Qed.
+
 (* Moving items between files, reordering them, splitting and merging files (any project with the
    same items) changes at most the order of declarations - unless a type name is defined twice or an
    event name is emitted with two different payload types. *)
@@ -22,6 +31,19 @@ Theorem C13_move : forall p p', Permutation (all_items p) (all_items p') ->
   kf_dupdef p = false -> kf_dupevent p = false ->
   forall zod w w', out_perm (gen zod w p) (gen zod w' p').
 Proof. exact move_perm. Qed.
+
+(* The property's last sentence as one statement: any sequence of source transformations - reordering the
+   items of a file, moving an item to another file, splitting a file, merging two files, listing the files
+   in another order, renaming a file (Spec/C13Rel.v tstep) - changes at most the order of declarations;
+   declarations carry their members (field / variant / parameter names in order), body and payload ids. *)
+Theorem C13_transformations : forall p p', tsteps p p' -> kf_dupdef p = false -> kf_dupevent p = false ->
+  forall zod w w', out_perm (gen zod w p) (gen zod w' p').
+Proof. exact transformations. Qed.
+
+(* The run-time oracle on two versions of a generated file decides exactly: same item list / same
+   multiset of items in another order / different multisets / a version does not parse. *)
+Theorem C13_oracle_exact : forall a b v, rel a b = v <-> rel_spec a b v.
+Proof. exact rel_exact. Qed.
 
 (* Added non-command functions without emit calls and non-serde items change nothing; an added
    file holding only such items changes at most the order. *)
@@ -36,7 +58,7 @@ Proof. exact noise_file_thm. Qed.
 Theorem C13_move_dupdef_refuted :
   exists p p' w o o', Permutation (all_items p) (all_items p') /\ kf_dupdef p = true /\ kf_dupevent p = false /\
     gen false w p = Some o /\ gen false w p' = Some o' /\
-    In (DType 1 0) (o_types o') /\ ~ In (DType 1 0) (o_types o).
+    In (DType 1 0 [200; 300]) (o_types o') /\ ~ In (DType 1 0 [200; 300]) (o_types o).
 Proof. exact move_dupdef_refuted. Qed.
 (* ... and exchanging two functions that emit one event name with different payload types changes the
    listener (the first emit site wins). *)
@@ -52,7 +74,7 @@ Example C13_ex_two_cmds : gen false (w_of [2; 1]) p_two_cmds = gen false (w_of [
 Proof. vm_compute. auto. Qed.
 (* the former content witness: identical sources now give one content for every order *)
 Example C13_ex_dupdef_deterministic : gen false (w_of [1; 2]) p_dupdef = gen false (w_of [2; 1]) p_dupdef
-  /\ option_map o_types (gen false (w_of [1; 2]) p_dupdef) = Some [DType 1 1; DParams 1].
+  /\ option_map o_types (gen false (w_of [1; 2]) p_dupdef) = Some [DType 1 1 [201; 300]; DParams 1 [101] []].
 Proof. vm_compute. auto. Qed.
 
 (* ---- non-vacuity: a three-file project with commands, events, types, noise ---- *)
@@ -64,16 +86,23 @@ Definition ex_w : omega := {| w_files := [3; 1; 2]; w_used := [2; 3; 1]; w_req :
                               w_res := []; w_dmap := [] |}.
 Example C13_ex_premises : kf_dupdef ex_p = false /\ kf_dupevent ex_p = false.
 Proof. vm_compute. auto. Qed.
-Example C13_ex_gen_plain : option_map o_types (gen false ex_w ex_p) = Some [DType 1 1; DType 2 0; DType 3 2; DType 4 3; DType 5 4; DParams 1]
+Example C13_ex_gen_plain : option_map o_types (gen false ex_w ex_p) = Some [DType 1 1 [201; 300]; DType 2 0 [200; 300]; DType 3 2 [202; 300]; DType 4 3 [203; 300]; DType 5 4 [204; 300]; DParams 1 [101] []]
   /\ option_map o_commands (gen false ex_w ex_p) = Some [DWrapper 1; DWrapper 2]
   /\ option_map o_events (gen false ex_w ex_p) = Some (Some [DListener 1 7]).
 Proof. vm_compute. auto. Qed.
 Example C13_ex_gen_zod : option_map o_types (gen true ex_w ex_p)
-  = Some [DSchema 3 2; DInfer 3; DSchema 2 0; DInfer 2; DSchema 1 1; DInfer 1; DSchema 5 4; DInfer 5; DSchema 4 3; DInfer 4;
-          DPSchema 1; DParams 1].
+  = Some [DSchema 3 2 [202; 300]; DInfer 3; DSchema 2 0 [200; 300]; DInfer 2; DSchema 1 1 [201; 300]; DInfer 1;
+          DSchema 5 4 [204; 300]; DInfer 5; DSchema 4 3 [203; 300]; DInfer 4; DPSchema 1 [101]; DParams 1 [101] []].
 Proof. vm_compute. reflexivity. Qed.
 Example C13_ex_noise : denoise ex_p <> ex_p /\ noise_file (4, [INoise; IFn []]) = true.
 Proof. split; [vm_compute; intros H; discriminate H|reflexivity]. Qed.
+Example C13_ex_tsteps : tsteps [(1, [mk_cmd 1 [1]; mk_type 1 [] 0; mk_cmd 2 []])]
+                              [(3, [mk_cmd 2 []]); (1, [mk_type 1 [] 0; mk_cmd 1 [1]])].
+Proof.
+  eapply ts_step. { apply (t_reorder [] 1 _ [mk_type 1 [] 0; mk_cmd 1 [1]; mk_cmd 2 []] []). apply perm_swap. }
+  eapply ts_step. { apply (t_split [] 1 3 [mk_type 1 [] 0; mk_cmd 1 [1]] [mk_cmd 2 []] []). }
+  eapply ts_step. { apply t_files. apply perm_swap. }
+  apply ts_refl. Qed.
 Example C13_ex_move : Permutation (all_items p_dupevent) (all_items p_dupevent_swapped)
   /\ Permutation (all_items [(1, [mk_cmd 1 [1]; mk_type 1 [] 0]); (2, [mk_cmd 2 []])])
                  (all_items [(1, [mk_cmd 2 []]); (2, [mk_type 1 [] 0]); (3, [mk_cmd 1 [1]])]).
@@ -85,7 +114,10 @@ Proof. split; cbn.
 
 Print Assumptions C13_order_independent.
 Print Assumptions C13_viz_independent.
+Print Assumptions C13_flags.
 Print Assumptions C13_move.
+Print Assumptions C13_transformations.
+Print Assumptions C13_oracle_exact.
 Print Assumptions C13_noise.
 Print Assumptions C13_noise_file.
 Print Assumptions C13_move_dupdef_refuted.
